@@ -744,4 +744,172 @@ theorem mapStep_ls (n : Node) (hk : kok n = true) (hm : isMap n.kind = true) (op
   | contains k => exact hself _
   | len => exact hself _
 
+/-! ### a call on an element, anywhere in a tree -/
+
+theorem isMap_cases (k : SKind) : isMap k = true ↔ k = .dict ∨ k = .sparse := by
+  cases k <;> simp [isMap]
+
+theorem nodeStep_ls (n : Node) (hk : kok n = true) (op : Op) (hop : kokL (placedArgs op) = true) (next : Nat) :
+    LS next (n :: placedArgs op) (nodeStep n op next).next [(nodeStep n op next).node] ∧
+      (nodeStep n op next).node.hdr = n.hdr := by
+  have hself : LS next (n :: placedArgs op) next [n] ∧ n.hdr = n.hdr := ⟨keep_ls hk _ (Nat.le_refl _), rfl⟩
+  cases op with
+  | seq o =>
+    have h := fun hm => seqStep_ls n hk hm o hop next
+    have hh := seqStep_hdr n o next
+    unfold nodeStep
+    cases hkd : n.kind <;> simp only [] <;>
+      first
+      | exact ⟨h (by rw [hkd]; rfl), hh⟩
+      | exact hself
+  | map o =>
+    have h := fun hm => mapStep_ls n hk hm o hop next
+    unfold nodeStep
+    cases hkd : n.kind <;> simp only [] <;>
+      first
+      | exact h (by rw [hkd]; rfl)
+      | exact hself
+
+theorem keys_of_hdr_cons {r k : Node} {ks : List Node} (h : r.hdr = k.hdr) :
+    (r :: ks).map Node.key = (k :: ks).map Node.key := by
+  rw [List.map_cons, List.map_cons, key_of_hdr h]
+
+mutual
+theorem stepAt_ls (op : Op) (hop : kokL (placedArgs op) = true) (tid : Nat) :
+    ∀ (t : Node) (next : Nat) (r : StepR), kok t = true → stepAt t tid op next = some r →
+      LS next (t :: placedArgs op) r.next [r.node] ∧ r.node.hdr = t.hdr
+  | .mk i s kids, next, r, hk, hr => by
+    rw [stepAt] at hr
+    split at hr
+    · cases hr; exact nodeStep_ls _ hk op hop next
+    · split at hr
+      · cases hr
+      · rename_i kids' r' hl
+        cases hr
+        have := stepAtL_ls op hop tid kids next kids' r' (kok_kids hk) hl
+        refine ⟨?_, rfl⟩
+        refine ⟨this.1.hle, ?_, fun a => ?_⟩
+        · rw [kok_single, kok_iff]
+          exact ⟨(kok_swf hk :), fun hm => by
+            show (kids'.map Node.key).Nodup
+            rw [this.2]; exact kok_keys hk hm, (kokL_iff _).mp this.1.hkok⟩
+        · have := this.1.hcnt a
+          simp only [cntL_cons, cntL_nil, cnt_mk, cntL_append] at this ⊢
+          omega
+theorem stepAtL_ls (op : Op) (hop : kokL (placedArgs op) = true) (tid : Nat) :
+    ∀ (ks : List Node) (next : Nat) (ks' : List Node) (r : StepR), kokL ks = true →
+      stepAtL ks tid op next = some (ks', r) →
+      LS next (ks ++ placedArgs op) r.next ks' ∧ ks'.map Node.key = ks.map Node.key
+  | [], _, _, _, _, hr => by rw [stepAtL] at hr; cases hr
+  | k :: ks, next, ks', r, hk, hr => by
+    rw [kokL, Bool.and_eq_true] at hk
+    rw [stepAtL] at hr
+    split at hr
+    · rename_i r1 h1
+      cases hr
+      have := stepAt_ls op hop tid k next _ hk.1 h1
+      refine ⟨?_, keys_of_hdr_cons this.2⟩
+      have h2 := this.1.append (LS.refl _ hk.2)
+      exact h2.of_le (fun x => by simp only [cntL_cons, cntL_append, cntL_nil]; omega)
+    · split at hr
+      · cases hr
+      · rename_i ks2 r2 h2
+        cases hr
+        have := stepAtL_ls op hop tid ks next _ _ hk.2 h2
+        refine ⟨LS.frame hk.1 this.1, ?_⟩
+        rw [List.map_cons, List.map_cons, this.2]
+end
+
+/-! ### histories -/
+
+theorem map_id_nodesL (l : List Node) : (nodesL l).map Node.id = l.flatMap ids := by
+  induction l with
+  | nil => rfl
+  | cons k ks ih => rw [nodesL, List.map_append, ih, List.flatMap_cons]; rfl
+
+theorem cntL_eq_count (a : Nat) (l : List Node) : cntL a l = (l.flatMap ids).count a := by
+  unfold cntL; rw [map_id_nodesL]
+
+/-- what the accounting inequality gives for a whole tree -/
+theorem idinv_of_ls {root root' : Node} {next next' : Nat} {A : List Node}
+    (hnd : (A.flatMap ids ++ ids root).Nodup) (hA : ∀ a ∈ A.flatMap ids, a < next)
+    (hb : ∀ a ∈ ids root, a < next) (h : LS next (root :: A) next' [root']) :
+    IdInv ⟨root', next'⟩ := by
+  have hold : ∀ a, cnt a root + cntL a A ≤ 1 := by
+    intro a
+    have := List.nodup_iff_count.mp hnd a
+    rw [List.count_append] at this
+    rw [cntL_eq_count]; unfold cnt; omega
+  have hlt : ∀ a, 0 < cnt a root + cntL a A → a < next := by
+    intro a ha
+    by_cases h1 : 0 < cnt a root
+    · exact hb a ((mem_ids_iff a root).mpr h1)
+    · have h2 : 0 < cntL a A := by omega
+      rw [cntL_eq_count] at h2
+      exact hA a (List.count_pos_iff.mp h2)
+  have hc : ∀ a, cnt a root' ≤ cnt a root + cntL a A + ind next next' a := by
+    intro a
+    have := h.hcnt a
+    simp only [cntL_cons, cntL_nil] at this; omega
+  refine ⟨?_, ?_, kok_single.mp h.hkok⟩
+  · show (ids root').Nodup
+    apply nodup_of_cnt
+    intro a
+    have h1 := hc a
+    have h2 := hold a
+    have h3 := ind_le_one next next' a
+    by_cases hz : 0 < cnt a root + cntL a A
+    · have := ind_eq_zero_of_lt (hi := next') (hlt a hz); omega
+    · omega
+  · intro a ha
+    have h0 := (mem_ids_iff a root').mp ha
+    have h1 := hc a
+    have hle := h.hle
+    by_cases hz : 0 < cnt a root + cntL a A
+    · have := hlt a hz; show a < next'; omega
+    · have : 0 < ind next next' a := by omega
+      exact (ind_pos this).2
+
+/-- **UniqueIds is preserved by every call of the model** (with it: every identity stays below
+    the allocation counter, keys stay unique), provided the Element arguments the call places
+    are fresh or detached objects. -/
+theorem hstep_idinv (s : HState) (h : HOp) (hi : IdInv s) (ha : ArgsFresh s h.op) : IdInv (hstep s h) := by
+  unfold hstep
+  cases hs : stepAt s.root h.target h.op s.next with
+  | none => exact hi
+  | some r =>
+    have := stepAt_ls h.op ((kokL_iff _).mpr ha.2.2) h.target s.root s.next r hi.keys hs
+    exact idinv_of_ls ha.1 ha.2.1 hi.below this.1
+
+theorem hrun_idinv (hs : List HOp) : ∀ (s : HState), IdInv s → HistFresh s hs → IdInv (hrun s hs) := by
+  induction hs with
+  | nil => intro s hi _; exact hi
+  | cons h hs ih =>
+    intro s hi hf
+    simpa [hrun] using ih (hstep s h) (hstep_idinv s h hi hf.1) hf.2
+
+/-- every construction route of the model yields unique identities below the counter -/
+theorem idinv_init (s : Schema) (hs : swf s = true) (key : Str) (next : Nat) :
+    IdInv ⟨(blank s none key next).1, (blank s none key next).2⟩ ∧
+    (∀ raw e n1, construct s raw none key next = (.ok e, n1) → IdInv ⟨e, n1⟩) ∧
+    IdInv ⟨(fromDefaults s none key next).node, (fromDefaults s none key next).next⟩ ∧
+    (∀ (st : HState) raw pol, IdInv st → IdInv ⟨(setNode st.root raw pol st.next).node, (setNode st.root raw pol st.next).next⟩) ∧
+    (∀ (st : HState), IdInv st → IdInv ⟨(setDefault st.root st.next).node, (setDefault st.root st.next).next⟩) := by
+  have hnew : ∀ {n' : Node} {next' : Nat}, LS next [] next' [n'] → IdInv ⟨n', next'⟩ := by
+    intro n' next' h
+    have hc : ∀ a, cnt a n' ≤ ind next next' a := fun a => by
+      have := h.hcnt a; simp only [cntL_singleton, cntL_nil] at this; omega
+    refine ⟨nodup_of_cnt (fun a => Nat.le_trans (hc a) (ind_le_one _ _ _)), ?_, kok_single.mp h.hkok⟩
+    intro a ha
+    have := (mem_ids_iff a n').mp ha
+    have h2 := hc a
+    exact (ind_pos (lo := next) (hi := next') (a := a) (by omega)).2
+  have hupd : ∀ {st : HState} {n' : Node} {next' : Nat}, IdInv st → LS st.next [st.root] next' [n'] → IdInv ⟨n', next'⟩ := by
+    intro st n' next' hi h
+    exact idinv_of_ls (A := []) (by simpa [UniqueIds] using hi.uniq) (by simp) hi.below h
+  refine ⟨hnew (blank_ls s none key next hs), ?_, hnew (fromDefaults_ls s none key next hs), ?_, ?_⟩
+  · intro raw e n1 h; exact hnew (construct_ls s raw none key next hs e n1 h)
+  · intro st raw pol hi; exact hupd hi (setNode_ls raw st.root pol st.next hi.keys)
+  · intro st hi; exact hupd hi (setDefault_ls st.root st.next hi.keys)
+
 end Flatland.C08.Proofs
